@@ -38,7 +38,9 @@ def gen(rng, ctx):
             kind = "hostile"
         except ValueError:
             pass
-    return {"c": cd, "kind": kind, "via": rng.choice(["graph", "api"])}
+    if rng.random() < 0.3:
+        cd = G.shuffle_nodes(rng, cd)
+    return {"c": cd, "kind": kind, "via": rng.choice(["graph", "api"]), "repeat": rng.random() < 0.2}
 
 
 def check(case, ctx):
@@ -52,6 +54,11 @@ def check(case, ctx):
     if len(ins) < 2 or not any(t in G.GATESN and len(net.preds[n]) > 1 for n, t in net.types.items()):
         ctx.trivial()
     ok, r = ctx.call(cg.tx.ternary, c)
+    if case.get("repeat"):
+        from rv.props._util import repeat_call
+
+        if not repeat_call(ctx, "ternary", "ternary", cg.tx.ternary, (c,), {}, (ok, r)):
+            return
     if not ok:
         if net.has_x() and isinstance(r, ValueError):
             ctx.reject("x_constant")
